@@ -63,7 +63,8 @@ namespace xsv
         OutKind out = O_SAME;
         TypeId out_type[NT];
         LaneJudge judge[NT];
-        bool div_like = false; // second operand must avoid 0 when neutral filler is needed
+        bool div_like = false;
+        bool cheap_only = false; // skip the large strided/exhaustive enumerations (value-independent data movement) // second operand must avoid 0 when neutral filler is needed
         std::string gen_hint; // driver-specific generation hint
         OpDef()
         {
@@ -317,6 +318,23 @@ namespace xsv
                 fails++;
             }
         }
+        if (d.out == O_BOOL && !fails)
+        {
+            uint64_t q[4];
+            memcpy(q, out1, sizeof q);
+            unsigned pop = 0;
+            for (int l = 0; l < n; ++l)
+                pop += out0[l] ? 1 : 0;
+            unsigned flags = (pop == (unsigned)n ? 1 : 0) | (pop ? 2 : 0) | (pop == 0 ? 4 : 0);
+            uint64_t full = n >= 64 ? ~0ull : ((1ull << n) - 1);
+            if (q[2] != pop || q[3] != flags || (q[0] & ~full) != 0)
+            {
+                if (first_fail)
+                    *first_fail = make_violation(cx, c, tg, e, -1, nullptr, nullptr,
+                                                 "count/all/any/none/mask disagree with the stored lanes: popcount=" + std::to_string(pop) + " count()=" + std::to_string(q[2]) + " all|any<<1|none<<2=" + std::to_string(q[3]) + " mask=" + std::to_string(q[0]));
+                return 1;
+            }
+        }
         return fails;
     }
 
@@ -407,7 +425,9 @@ namespace xsv
         for (int b = 0; b < 11; ++b)
             if (cls_all & (1u << b))
                 cx.st.classes[kClassNames[b]]++;
-        unsigned nt = cls_all & ~(unsigned)(CL_TRUE | CL_FALSE);
+        unsigned nt = cls_all & ~(unsigned)(CL_TRUE | CL_FALSE) & 0xfff;
+        if (((cls_all >> 12) & 15) == 15)
+            nt |= CL_TRUE; // mask pairs: all four (p,q) truth combinations present in the batch
         if ((cls_all & CL_TRUE) && (cls_all & CL_FALSE))
             nt |= CL_TRUE;
         if (nt && differ_all)
